@@ -24,6 +24,7 @@ import (
 	headschema "github.com/ipni/go-libipni/dagsync/ipnisync/head"
 	"github.com/ipni/go-libipni/maurl"
 	"github.com/ipni/go-libipni/mautil"
+	"github.com/ipni/go-libipni/verifhook"
 	"github.com/libp2p/go-libp2p/core/network"
 	"github.com/libp2p/go-libp2p/core/peer"
 	libp2phttp "github.com/libp2p/go-libp2p/p2p/http"
@@ -122,6 +123,7 @@ func (s *Sync) NewSyncer(peerInfo peer.AddrInfo) (*Syncer, error) {
 		}
 	}
 
+	verifhook.LockWait("clienthost.lock", nil, &s.clientHostMutex)
 	s.clientHostMutex.Lock()
 	cli, err = s.clientHost.NamespacedClient(ProtocolID, peerInfo, rtOpts...)
 	s.clientHostMutex.Unlock()
@@ -178,6 +180,7 @@ func (s *Sync) NewSyncer(peerInfo peer.AddrInfo) (*Syncer, error) {
 
 func (s *Sync) Close() {
 	s.client.CloseIdleConnections()
+	verifhook.LockWait("clienthost.lock", nil, &s.clientHostMutex)
 	s.clientHostMutex.Lock()
 	s.clientHost.Close()
 	s.clientHostMutex.Unlock()
